@@ -82,7 +82,7 @@ class IntervalTree:
             return bool(self._query_point(item, self.root, check_extreme=True))
 
     def _build_tree(self, intervals):
-        if not intervals.any():
+        if not intervals.size:
             return None
 
         center_point = self._get_center(intervals)
